@@ -547,10 +547,18 @@ def _zstd_empty(p: Path) -> bool:
 
 _RUN_RE = re.compile(r"run-\d{8}-\d{6}\.\d+")
 _HEX_RE = re.compile(r"0x[0-9a-fA-F]+")
+_TIME_RE = re.compile(r"\d{4}-\d\d-\d\dT\d\d:\d\d:\d\d(\.\d+)?([+-]\d\d:\d\d)?")
+_NUM_RE = re.compile(r"\b\d{9,}(\.\d+)?\b")
 
 
 def _norm(msg: str, d: Path) -> str:
     return _HEX_RE.sub("0x?", _RUN_RE.sub("<RUN>", msg.replace(str(d), "<D>")))
+
+
+def _stable(msg: str, d: Path) -> str:
+    """violation messages must not depend on the scratch path, the clock or thread numbering (replay compares them)"""
+    msg = _NUM_RE.sub("<T>", _TIME_RE.sub("<TIME>", _norm(msg, d)))
+    return re.sub(r"Thread-\d+", "Thread-N", msg)
 
 
 def kind_class(kind: str) -> str:
@@ -582,7 +590,7 @@ def judge(case: dict[str, Any], d: Path, obs: dict[str, Any], f: dict[str, Any])
     ctx = f"exit={kc}|phase={ph}"
 
     def v(sig: str, msg: str) -> None:
-        out.append((f"C15|{sig}", f"{msg} [{where}; entry_point outcome {fate}{' ' + obs.get('raise_text', '') if 'raise_text' in obs else ''}]"))
+        out.append((f"C15|{sig}", _stable(f"{msg} [{where}; entry_point outcome {fate}{' ' + obs.get('raise_text', '') if 'raise_text' in obs else ''}]", d)))
 
     # --- a hook must never abort the run --------------------------------------------------
     if obs["hook_raised"] is not None:
@@ -602,6 +610,12 @@ def judge(case: dict[str, Any], d: Path, obs: dict[str, Any], f: dict[str, Any])
         if not (kind == "dbfault" and point == "db-close"):
             v(f"stage-not-reached|{point}", f"lifecycle stage {point} was never executed (stages seen: {obs['reached']})")
         return out
+
+    # --- setup/main/teardown sequencing: once main was entered, teardown runs --------------------
+    if "main" in obs["reached"] and "teardown-early" not in obs["reached"]:
+        v(f"stage-skipped|teardown|{ctx}", f"main() was entered but teardown() never ran (stages seen: {obs['reached']})")
+    if hv != "off" and obs["fate"] == "return" and "post-hook" not in obs["reached"]:
+        v(f"stage-skipped|post-hook|{ctx}", f"entry_point() returned without running the post-hook (stages seen: {obs['reached']})")
 
     # --- process-level exit code -----------------------------------------------------------
     if exp.weak:
@@ -837,6 +851,11 @@ def run_case(case: dict[str, Any], res: Result, keep: bool = False) -> tuple[dic
     res.seen("outcomes", (case["cmd"], case["kind"], case["point"], obs["fate"], obs["proc_code"]))
     h = res.notes.setdefault("process_status_histogram", {})
     h[str(obs["proc_code"])] = h.get(str(obs["proc_code"]), 0) + 1
+    if fired:
+        ecodes = M.expect(case["cmd"], case["kind"], case["point"]).codes
+        h3 = res.notes.setdefault("expected_code_histogram", {})
+        key = str(ecodes[0]) if ecodes else "weak"
+        h3[key] = h3.get(key, 0) + 1
     h2 = res.notes.setdefault("entry_point_outcome_histogram", {})
     h2[obs["fate"]] = h2.get(obs["fate"], 0) + 1
     for sig, msg in viol:
@@ -954,7 +973,7 @@ def run_fresh(item: tuple[Any, ...], res: Result) -> None:
         try:
             p = subprocess.run(
                 [sys.executable, "-c", FRESH_DRIVER, json.dumps(case), str(d2)],
-                stdout=err, stderr=err, env=env, timeout=30, start_new_session=True, check=False,
+                stdout=err, stderr=err, env=env, timeout=20, start_new_session=True, check=False,
             )
             rc: Any = p.returncode
         except subprocess.TimeoutExpired:
@@ -982,7 +1001,8 @@ def run_rerun(item: tuple[Any, ...], res: Result) -> None:
     f = read_files(case, d, obs)
     res.count("evaluations")
     res.count("rerunner_round_trips")
-    if f["meta"] is None or not f["db_rows"] or f["db_rows"][0][6] is None and src == "db" and False:
+    if f["meta"] is None or not f["db_rows"]:
+        res.count("rerun_skipped_no_record")  # reported by the group items
         shutil.rmtree(d, ignore_errors=True)
         return
     case2 = dict(case, rerun=src)
@@ -1091,10 +1111,10 @@ def finish(merged: Result, tier: str) -> dict[str, Any]:
     ev = c.get("evaluations", 0)
     if ev == 0:
         raise Broken("no case was evaluated")
-    status = merged.notes.get("process_status_histogram", {})
-    for code in ("0", "1", "3", "70", "130"):
-        if code not in status:
-            raise Broken(f"vacuous: no run ended with process status {code}")
+    planned = merged.notes.get("expected_code_histogram", {})
+    for code in ("0", "1", "3", "70", "74", "130", "weak"):
+        if code not in planned:
+            raise Broken(f"vacuous: no executed case whose documented exit code is {code}")
     if c.get("exit_fired_at_planned_point", 0) < ev * 0.5:
         raise Broken("vacuous: planned exits fired in fewer than half of the cases")
     left = [p for p in SHM.glob("lifecycle-*") if p.is_dir() and not any(p.iterdir())]
